@@ -117,7 +117,7 @@ def run_toy(ctx, Packetizer, Message, n_streams, exhaustive_streams):
             stop = None
             for _ in range(len(sent) + 2):
                 sc = gen_sched(rng, 32) if rng.random() < 0.3 else []
-                rq = "read " + (",".join(map(str, sc)) or "-")
+                rq = "read " + L.sched_tok(sc)
                 out = pair.do(rq)
                 lines.append(rq)
                 impl.append(out)
@@ -153,15 +153,16 @@ def record_real(Packetizer, Message, rng, c, m, comp, salt, nmsgs):
 
 
 def replay_real(Packetizer, rng, c, m, comp, salt, seq, data, max_reads):
-    sock = L.FragSock(data, [rng.choice([1, 3, 8, 64]) for _ in range(rng.randrange(0, 4))])
+    sock = L.FragSock(data, [rng.choice([1, 3, 8, 64, 0, "r"]) for _ in range(rng.randrange(0, 4))])
     pr = Packetizer(sock)
+    sock.pk = pr
     pr._initial_kex_done = True
     L.stub_transport(pr, c, m, comp, server=True, salt=salt)._activate_inbound()
     L.set_seq(pr, inn=seq)
     got, stop = [], None
     for _ in range(max_reads):
         try:
-            cmd, msg = pr.read_message()
+            cmd, msg, _ = L.read_message_retrying(pr)
         except Exception as e:
             stop = L.classify(e)
             break
